@@ -202,7 +202,11 @@ def exec_for(e: Engine, s: ast.For, st: State) -> List[Outcome]:
     res = list(outs)
     for o in body_outs:
         if o.kind in ("normal", "continue"):
-            run_ghost(e, o.st, f"{tag}:body_end", k)
+            e._ghost_it = getattr(space, "seq", None)
+            try:
+                run_ghost(e, o.st, f"{tag}:body_end", k)
+            finally:
+                e._ghost_it = None
             check_invariants(e, spec, o.st, k + 1, space, pre_loop, tag, "preserved")
             check_steps(e, spec, o.st, k, space, pre_loop, body_start, tag)
         elif o.kind == "break":
@@ -240,12 +244,17 @@ def run_ghost_code(e: Engine, st: State, code: str, k=None):
     e.guards = []
     if k is not None:
         st.store["k"] = SV(INT, k)
+    it_seq = getattr(e, "_ghost_it", None)
+    if it_seq is None and e.loop_stack and getattr(e.loop_stack[-1].get("space"), "seq", None) is not None:
+        it_seq = e.loop_stack[-1]["space"].seq
+    if it_seq is not None:
+        st.store["it"] = it_seq          # the sequence the innermost loop iterates over (as in invariants)
     try:
         for stmt in tree.body:
             # lemma steps mentioning a local that is not bound on this path are skipped (they only add lemma instances)
             bound_params = {a.arg for x in ast.walk(stmt) if isinstance(x, ast.Lambda) for a in x.args.args}
             names = {x.id for x in ast.walk(stmt) if isinstance(x, ast.Name)} - bound_params
-            defs_known = set(st.store) | set(e.contract.defs if e.contract else {}) | set(e.reg.specs) | {"ghost", "G", "k", "True", "False", "None"}
+            defs_known = set(st.store) | set(e.contract.defs if e.contract else {}) | set(e.reg.specs) | {"ghost", "G", "k", "it", "True", "False", "None"}
             if any(nm not in defs_known and nm not in ("implies", "forall", "exists", "old", "ite", "iff", "prev", "loop_entry", "use_lemma", "len", "min", "max", "str", "isinstance", "typed", "is_none", "int") and nm not in e.repo.classes for nm in names):
                 continue
             if isinstance(stmt, ast.Assert):
